@@ -157,15 +157,39 @@ int main(int argc, char** argv) {
     return roundtrip(l, options, strict, false);
   }
   if (a.mode == "list_roundtrip" || a.mode == "dict_roundtrip") {
+    // The verifier's counterexample is over abstract children (the child emitter is a stub whose options argument is an uninterpreted
+    // tag), so the option word it reports need not be one on which the real children differ: after the reported input the driver
+    // goes through all 64 option sets with three children (a search for a failing input, reported as such).
+    static int sweep = -1;
     size_t n = a.u("in_n", 0);
     if (n > 1000) n = 1000;
+  again:
+    if (sweep >= 0) { options = (uint32_t)sweep; n = 3; strict = !(options & NONSTANDARD); printf("option sweep: options=0x%X, three children\n", options); }
     JSON c = (a.mode == "list_roundtrip") ? JSON::list() : JSON::dict();
     for (size_t i = 0; i < n; i++) {
-      JSON child = (i % 3 == 0) ? JSON((int64_t)i) : (i % 3 == 1) ? JSON::list({JSON(nullptr), JSON(true)}) : JSON::dict({{"k", JSON("v")}});
+      // children on which every option shows: an integer (HEX_INTEGERS), constants (ONE_CHARACTER_TRIVIAL_CONSTANTS), a dict with
+      // enough keys for the hash-table order to differ from the sorted order (SORT_DICT_KEYS), a string with a control character
+      JSON child = (i % 3 == 0) ? JSON((int64_t)i + 255) : (i % 3 == 1) ? JSON::list({JSON(nullptr), JSON(true), JSON("t\x01\xC3\xA9")})
+          : JSON::dict({{"alpha", JSON(1)}, {"bravo", JSON(2)}, {"charlie", JSON(3)}, {"delta", JSON(4)}, {"echo", JSON(5)}, {"foxtrot", JSON(6)}, {"golf", JSON(7)}, {"hotel", JSON(8)}});
       if (a.mode == "list_roundtrip") c.emplace_back(std::move(child));
       else c.emplace(string_printf("key%zu", i), std::move(child));
     }
-    return roundtrip(c, options, strict, false);
+    if (a.mode == "list_roundtrip" && n > 0) {
+      // "children with the parent options": the list text is the children's own texts under the same options, in list order
+      bool format = options & JSON::SerializeOption::FORMAT;
+      std::string want = "[";
+      for (size_t i = 0; i < n; i++) {
+        if (i) want += ',';
+        if (format) want += "\n  " + c.at(i).serialize(options, 2);
+        else want += c.at(i).serialize(options);
+      }
+      want += format ? "\n]" : "]";
+      std::string got = c.serialize(options);
+      RCHECK(got == want, "list.serialize(0x%X) = %s, the elements serialised with the same options give %s", options, show(got).c_str(), show(want).c_str());
+    }
+    if (int r = roundtrip(c, options, strict, false)) return r;
+    if (++sweep < 64) goto again;
+    return 0;
   }
   fprintf(stderr, "unknown mode %s\n", a.mode.c_str());
   return 2;
